@@ -72,8 +72,9 @@ func (m *c17Messenger) Reset(ctx context.Context) {
 	if err != nil {
 		panic("c17 harness: messenger: " + err.Error())
 	}
-	// more records than the clean-up threshold, all young enough to stay
-	for slot := phase0.Slot(1000); slot < 1105; slot++ {
+	// more records than the clean-up threshold, all young enough to stay whatever the history records or
+	// removes (recording a slot may clear what is older than that slot: youngest first)
+	for slot := phase0.Slot(2104); slot >= 2000; slot-- {
 		s.UpdateSyncCommitteeDataRecord(slot, phase0.Root{0xee}, map[phase0.ValidatorIndex][]phase0.CommitteeIndex{})
 	}
 	m.s = s
@@ -243,6 +244,12 @@ func (v *c17Validators) Call(ctx context.Context, _ int, op c17Op) int {
 			mask += int(i)
 		}
 		_ = byKey
+		// the third reader of the maps (the account managers ask it for every account)
+		for i := range res {
+			if _, err := v.s.ValidatorStateAtEpoch(ctx, i, 3); err != nil {
+				return -1
+			}
+		}
 		return mask
 	}
 	panic("c17 harness: validators op " + op.Name())
